@@ -506,10 +506,18 @@ func urlEscape(s string) string {
 	return b.String()
 }
 
-func (s *server) listing(q string) ([]storage.UploadInfo, string) {
+func (s *server) listing(q string) ([]storage.UploadInfo, string) { return s.listingLimit(q, -1) }
+
+// listingLimit asks /uploads with an explicit limit parameter (limit < 0: none, the server's default)
+func (s *server) listingLimit(q string, limit int) ([]storage.UploadInfo, string) {
 	u := "/uploads"
+	sep := "?"
 	if q != "" {
 		u += "?q=" + urlEscape(q)
+		sep = "&"
+	}
+	if limit >= 0 {
+		u += fmt.Sprintf("%slimit=%d", sep, limit)
 	}
 	code, body := s.get(u)
 	if code != 200 {
@@ -707,6 +715,7 @@ func b01(b bool) string {
 
 type snapshot struct {
 	all   []result
+	lims  map[int][]storage.UploadInfo // /uploads?limit=k for k = 0 (no limit), 1, 2, 3
 	list  []storage.UploadInfo
 	names []string
 	data  map[string][]byte
@@ -716,7 +725,11 @@ func (s *server) snap() snapshot {
 	all, _ := s.search("upload>")
 	list, _ := s.listing("")
 	names, data := s.files()
-	return snapshot{all, list, names, data}
+	lims := map[int][]storage.UploadInfo{}
+	for _, k := range []int{0, 1, 2, 3} {
+		lims[k], _ = s.listingLimit("", k)
+	}
+	return snapshot{all, lims, list, names, data}
 }
 
 // view of a snapshot without anything that belongs to upload id / uid
@@ -931,8 +944,12 @@ func runScenarioOnce(id int, sc *scenario) bool {
 				fd = append(fd, hx.HexS(n)+"="+hx.Hex(after.data[n]))
 			}
 		}
-		obs = append(obs, fmt.Sprintf("step=%d status=%d err=%s id=%s fids=%s trace=%s nup=%d own=%d search=%s list=%s files=%s",
-			step, resp.status, resp.errTag, rid, joinOr(resp.fids), trace, nup, own, joinOr(sr), joinOr(ls), joinOr(fd)))
+		var l2 []string
+		for _, u := range after.lims[2] {
+			l2 = append(l2, fmt.Sprintf("%s:%d", u.UploadID, u.Count))
+		}
+		obs = append(obs, fmt.Sprintf("step=%d status=%d err=%s id=%s fids=%s trace=%s nup=%d own=%d search=%s list=%s l2=%s files=%s",
+			step, resp.status, resp.errTag, rid, joinOr(resp.fids), trace, nup, own, joinOr(sr), joinOr(ls), joinOr(l2), joinOr(fd)))
 
 		// ---- sobs: the property's vocabulary
 		byUID, _ := s.search("uid:" + rq.uid)
@@ -974,6 +991,21 @@ func runScenarioOnce(id int, sc *scenario) bool {
 			}
 		}
 		earlier := before.without(rid, rq.uid) == after.without(rid, rq.uid) && before.without("-", "\x00") == after.without(rid, rq.uid)
+		// limited listings: /uploads?limit=k must be the first k entries of the full listing, and after a
+		// failed request exactly what it was before (a failed upload must not use up a slot)
+		limOK := sameList(after.list, after.lims[0])
+		for _, k := range []int{1, 2, 3} {
+			want := after.lims[0]
+			if len(want) > k {
+				want = want[:k]
+			}
+			if !sameList(after.lims[k], want) {
+				limOK = false
+			}
+			if resp.status != 200 && !sameList(after.lims[k], before.lims[k]) {
+				limOK = false
+			}
+		}
 		stored := "-"
 		if resp.status == 200 {
 			var st []string
@@ -990,8 +1022,8 @@ func runScenarioOnce(id int, sc *scenario) bool {
 			}
 			stored = joinOr(st)
 		}
-		sobs = append(sobs, fmt.Sprintf("step=%d ok=%s vis=%d,%d,%d lab=%s listed=%s inprog=%s earlier=%s idsok=%s stored=%s",
-			step, b01(resp.status == 200), len(byUID), inAll, max(own, 0), strings.Join(lab, ","), b01(listed), b01(inprog), b01(earlier), b01(idsOK(s.ffs.ids)), stored))
+		sobs = append(sobs, fmt.Sprintf("step=%d ok=%s vis=%d,%d,%d lab=%s listed=%s lim=%s inprog=%s earlier=%s idsok=%s stored=%s",
+			step, b01(resp.status == 200), len(byUID), inAll, max(own, 0), strings.Join(lab, ","), b01(listed), b01(limOK), b01(inprog), b01(earlier), b01(idsOK(s.ffs.ids)), stored))
 	}
 	var tl []string
 	for t := range tags {
@@ -1019,6 +1051,18 @@ func hasBench(content string) bool {
 		}
 	}
 	return false
+}
+
+func sameList(a, b []storage.UploadInfo) bool {
+	if len(a) != len(b) {
+		return false
+	}
+	for i := range a {
+		if a[i].UploadID != b[i].UploadID || a[i].Count != b[i].Count {
+			return false
+		}
+	}
+	return true
 }
 
 func joinOr(l []string) string {
